@@ -108,5 +108,15 @@ RefusedScripts ==
       t \in CbPairs, p \in Providers,
       bad \in { CSetKeyOp("RS256", 0), CSetKeyOp("HS256", 0), CSetKeyOp("HS256", -1), CSetKeyOp("ES256", 1), CSetKeyOp("EdDSA", 1), CSetKeyOp("INVAL", 0) } }
 MCSpec == ISpecFam(<<C01Scripts, CallbackScripts, RefusedScripts>>)
+\* stage 'faults': every allocation request made inside jwt_checker_verify fails once - with and without a callback
+\* installed - on tokens that must be refused: running short of memory is no reason to accept
+FaultScripts ==
+  { << OpsOp(p), LoadOp(<<t[1]>>), CNewOp, CSetKeyOp(t[3], 0) >> \o cb \o
+    << VerifyOp([TokWith(t[3], S("valid", t[3], t[1]), "none", 1) EXCEPT !.alter = "pay"]),
+       VerifyOp(TokWith(t[3], S("flipbit", t[3], t[1]) @@ [where |-> "any"], "none", 1)),
+       VerifyOp(TokWith(t[3], EmptySig, "none", 1)), VerifyOp(TokWith("none", EmptySig, "none", 1)),
+       VerifyOp(TokWith(t[3], S("valid", t[3], t[2]), "none", 1)) >> :
+      t \in CbPairs, p \in Providers, cb \in { <<>>, <<CSetCbOp(<<>>)>>, <<CSetCbOp(<<[k |-> "read"]>>)>> } }
+MCSpecFault == ISpecFam(<<FaultScripts>>)
 \* non-vacuity: valid signatures are accepted by the reference
 =============================================================================
